@@ -320,6 +320,41 @@ func (f *shFlow) cmd(c *eng.ShCmd, st shState) []shResult {
 			}
 			return one(st, status, len(st.events)-1)
 		}
+		// `shift [n]` inside a function that was stepped into: its positional parameters are the bound arguments
+		if name == "shift" && st.depth > 0 && len(words) <= 2 && len(c.Assigns) == 0 {
+			n := 1
+			okN := true
+			if len(words) == 2 {
+				if lit, isLit := shLitOf(words[1]); isLit {
+					if k, err := strconv.Atoi(lit); err == nil && k >= 0 {
+						n = k
+					} else {
+						okN = false
+					}
+				} else {
+					okN = false
+				}
+			}
+			if okN {
+				have := 0
+				for k := 1; k <= 9; k++ {
+					if _, has := st.env[strconv.Itoa(k)]; has {
+						have = k
+					}
+				}
+				if n <= have {
+					ns := st
+					for k := 1; k <= 9; k++ {
+						if v, has := st.env[strconv.Itoa(k+n)]; has && k+n <= 9 {
+							ns = ns.set(strconv.Itoa(k), v, true)
+						} else {
+							ns = ns.set(strconv.Itoa(k), nil, false)
+						}
+					}
+					return one(ns, 1, -1)
+				}
+			}
+		}
 		switch name {
 		case "continue", "break", "return", "exit":
 			r := shResult{st: st, status: 0, ev: -1, out: name, outCmd: c}
